@@ -35,7 +35,7 @@ schema(A.Namespace, name='str', version='str?', identifier_prefixes='list[str]',
        symbols='dict[Node|Member]', includes='set', shared_libraries='list[str]', c_includes='list[str]',
        exported_packages='list[str]', doc_format='str')
 schema(A.Registered, gtype_name='str?', get_type='str?')
-schema(A.Callable, _retval='Return?', _parameters='list[Parameter]', throws='bool',
+schema(A.Callable, _retval='Return', _parameters='list[Parameter]', throws='bool',
        _instance_parameter='Parameter?', finish_func='str?', sync_func='str?', async_func='str?')
 schema(A.FunctionMacro, symbol='str', parameters='list[Parameter]')
 schema(A.Function, symbol='str', is_method='bool', is_constructor='bool', shadowed_by='str?', shadows='str?',
